@@ -219,6 +219,9 @@ pm(const char *p, const char *s, int flags)
 				++end;
 			}
 			if (*end == ']') {
+				/* A class never matches the end of 's'. */
+				if (*s == '\0')
+					return (0);
 				/* We found [...], try to match it. */
 				if (!pm_list(p + 1, end, *s, flags))
 					return (0);
@@ -324,6 +327,9 @@ pm_w(const wchar_t *p, const wchar_t *s, int flags)
 				++end;
 			}
 			if (*end == L']') {
+				/* A class never matches the end of 's'. */
+				if (*s == L'\0')
+					return (0);
 				/* We found [...], try to match it. */
 				if (!pm_list_w(p + 1, end, *s, flags))
 					return (0);
